@@ -113,6 +113,10 @@ def explore(ctx):
             try:
                 compare_binaries(ctx, case, desc, skip, lib, i)
             except Exception as e:
+                if "format requires -32768" in str(e) or "does not fit in format" in str(e):
+                    # nested scaled components pushed a coordinate beyond 16 bits: no font exists for this input, skipping or not
+                    ctx.klass("outside_opentype_number_range_rejected")
+                    continue
                 ctx.spec_failure(case, "compile raised %s: %s\n%s" % (type(e).__name__, e, traceback.format_exc()[-1200:]))
     for (cases, meta), fn, tag in ((filt, FN, "Filt"), (pre, FN_PRE, "Pre")):
         vals = ctx.coq_eval(IMPORTS, fn, cases, chunk=6, tag=tag)
